@@ -8,7 +8,7 @@ func extraEngines(prop string) []Engine {
 	case "C13":
 		return []Engine{&diskEngine{}}
 	case "C12":
-		return []Engine{&c12Engine{}}
+		return []Engine{&c12Engine{}, &c12Engine{race: true}}
 	}
 	return nil
 }
